@@ -126,8 +126,8 @@ func main() {
 var replayable = map[string][]string{
 	"proto": {"serve ", "cdec "}, "req": {"hreq "}, "seg": {"env."}, "cut": {"env."}, "limit": {"env."}, "roundtrip": {"env."},
 	"cancel": {"cflow ", "cwatch ", "cwrite "}, "timeout": {"gtmo.", "ctmo.serve "}, "life": {"rseq ", "sseq "},
-	"codec": {"code.", "pct.", "b64.", "http."}, "disp": {"disp ", "path ", "cpath "}, "neg": {"neg ", "cmin "},
-	"icpt": {"icpt "}, "panic": {"recover "},
+	"codec": {"code.", "pct.", "b64.", "http."}, "disp": {"disp ", "path ", "cpath "}, "neg": {"neg ", "cmin ", "env.recv "},
+	"icpt": {"icpt "}, "panic": {"recover ", "rchain "},
 }
 
 func corpusOp(stream, line string) bool {
